@@ -27,8 +27,8 @@ def main():
     props = sys.argv[2:]
     meta = json.load(open(os.path.join(mdir, "meta.json")))
     home = meta.get("property", props[0])
-    wt = "/tmp/mut/%s" % home
-    name = "%s-%s" % (home, os.path.basename(mdir))
+    wt = os.path.join(os.path.dirname(os.path.dirname(mdir)), home)       # the mutant's own scratch worktree
+    name = "%s-%s%s" % (home, os.environ.get("SEED_TAG", ""), os.path.basename(mdir))
     patch = os.path.join(mdir, "patch.diff")
     demo = os.path.join(mdir, "demo.py")
     env = dict(os.environ, PYTHONPATH=wt)
